@@ -185,17 +185,66 @@ def run_corpus(shard):
     return acc
 
 
+def run_history(shard):
+    """fingerprints are functions of the current structure, not of the calls made before: fingerprint, edit in place (hydrogens explicit / implicit, kekule, thiele,
+    standardize, canonicalize, renumber, delete or add an atom), fingerprint again = fingerprint of a fresh copy of the edited molecule"""
+    from chython import smiles
+    acc = Acc()
+    mols = ['CCO', 'CC(=O)O', 'c1ccccc1C', 'C1CC1C', 'CC(C)(C)C', 'c1ccc2ccccc2c1', 'C[N+](C)(C)C', 'OC(=O)CN', '[Na+].[Cl-]', 'C[Fe]C', 'CC[O-].[Na+]', 'c1cc[nH]c1', 'C[C@H](N)C(=O)O', 'C/C=C/C', 'O=C1CCCC1',
+            'CN(=O)=O', 'C1CC2CCC1C2'] + M.corpus(stride=300)[:8]
+    ops = [('explicify_hydrogens', lambda m: m.explicify_hydrogens()), ('implicify_hydrogens', lambda m: (m.explicify_hydrogens(), m.linear_hash_set(), m.morgan_hash_set(), m.implicify_hydrogens())),
+           ('kekule', lambda m: m.kekule()), ('thiele', lambda m: (m.kekule(), m.linear_hash_set(), m.thiele())), ('standardize', lambda m: m.standardize()), ('canonicalize', lambda m: m.canonicalize()),
+           ('remap', lambda m: m.remap({n: n + 7 for n in list(m)})), ('delete_atom', lambda m: m.delete_atom(list(m)[-1])), ('add_atom+bond', lambda m: m.add_bond(list(m)[0], m.add_atom('C'), 1)),
+           ('neutralize', lambda m: m.neutralize()), ('remove_coordinate_bonds', lambda m: m.remove_coordinate_bonds() if hasattr(m, 'remove_coordinate_bonds') else None)]
+    calls = [('linear_hash_set', lambda m: sorted(m.linear_hash_set())), ('linear_hash_set(1,6)', lambda m: sorted(m.linear_hash_set(1, 6))), ('morgan_hash_set', lambda m: sorted(m.morgan_hash_set())),
+             ('linear_bit_set', lambda m: sorted(m.linear_bit_set())), ('morgan_bit_set', lambda m: sorted(m.morgan_bit_set())),
+             ('linear_hash_smiles', lambda m: sorted((k, sorted(v)) for k, v in m.linear_hash_smiles().items()))]
+    for s in mols:
+        for oname, op in ops:
+            try:
+                m = smiles(s)
+            except Exception:
+                continue
+            acc.states += 1
+            try:
+                before = [f(m) for _, f in calls]
+                op(m)
+            except Exception as e:
+                acc.outcomes[('operation not applicable', type(e).__name__)] += 1
+                continue
+            fresh = m.copy()
+            fresh.flush_cache()
+            for cname, f in calls:
+                acc.transitions += 1
+                try:
+                    got = f(m)
+                    exp = f(fresh)
+                except Exception as e:
+                    acc.fail('%s raised %s after an in-place %s' % (cname, type(e).__name__, oname), mol=s, op=oname)
+                    break
+                if got != exp:
+                    acc.fail('%s after an in-place %s differs from the value on a fresh copy (depends on the calls made before)' % (cname, oname), mol=s, op=oname)
+                    break
+            acc.outcomes[oname] += 1
+    acc.sample({'molecules': mols[:6], 'operations': [o[0] for o in ops]})
+    return acc
+
+
 def plan(tier, seed):
     return [Stage('small scope x numberings', run_small, [(k, 64, tier) for k in range(64)],
                   'D(<=5,%d) x ALL numberings (n<=4) / GEN (n=5) x 2 atom insertion orders x 2 bond orders; parameter grids' % (1 if tier == 'quick' else 2)),
             Stage('corpus x GEN subset', run_corpus, [(k, 64, tier) for k in range(64)],
-                  'lipophilicity.csv stride %d, 6 GEN renumberings each' % (8 if tier == 'quick' else 1))]
+                  'lipophilicity.csv stride %d, 6 GEN renumberings each' % (8 if tier == 'quick' else 1)),
+            Stage('call history', run_history, [0], '25 molecules x 11 in-place edits (hydrogens, kekule/thiele, standardize, renumber, atom edits) between two evaluations of 6 fingerprint calls: second value = value on a fresh copy')]
 
 
 def replay(rec):
     from chython import smiles
     acc = Acc()
     tag = rec.get('mol', '')
+    if rec.get('op'):
+        a = run_history(0)
+        return [f for f in a.fails if f['key'] == rec['key']]
     if tag.startswith('n'):
         specs = {s['tag']: s for s in M.scope(5, 2, with_h=True, with_iso=True)}
         spec = specs[tag]
